@@ -56,7 +56,7 @@ def floors(tier):
     return {"runs": 400 * k, "decided:resumes": 300 * k, "decided:warm_starts": 150 * k, "decided:deletes_before_end": 500 * k,
             "early_removals": 100 * k, "runs:delete_checkpoints": 200 * k, "runs:no_delete": 80 * k,
             "decided:sync_paused_deletes": 50 * k, "runs:early_removal_requested": 60 * k,
-            "decided:pbt_clone_source_choices": 100 * k, "runs:pause_capable_with_several_reports_per_poll": 30 * k, "runs:dehb_without_pause_resume": 15 * k, "runs:pbt_with_jobs_ending_by_themselves": 40 * k,
+            "decided:pbt_clone_source_choices": 100 * k, "runs:pause_capable_with_several_reports_per_poll": 30 * k, "runs:dehb_without_pause_resume": 15 * k, "runs:synchronous_with_stragglers": 60 * k, "runs:pbt_with_jobs_stopped_from_outside": 40 * k, "runs:pbt_with_jobs_ending_by_themselves": 40 * k,
             "decided:warm_starts_from_completed_trial": 5 * k, "decided:warm_starts_from_failed_trial": 5 * k, "runs:nan_reporting_trials": 25 * k, "decided:resumes_of_nan_trials": 10 * k}
 
 
@@ -88,6 +88,15 @@ def expand(spec):
                 p["plan"].setdefault("short", {})[key] = rng.randint(1, max(1, max_t - 1))
             else:
                 p["plan"].setdefault("fail", {})[key] = rng.randint(1, max(1, max_t - 1))
+    if kind == "pbt" and rng.random() < 0.4:
+        # jobs interrupted from outside (a user, a time limit of the machine): the backend reports them as stopped although
+        # nobody called stop_trial; the scheduler only learns of an error and may still clone from their checkpoints
+        for _ in range(rng.randint(1, 3)):
+            p["plan"].setdefault("ext_stop", {})[f"{rng.randint(0, 8)}:0"] = rng.randint(1, max(1, max_t - 1))
+    if kind in ("dehb", "sync_hb") and rng.random() < 0.6:
+        # stragglers: some jobs make progress in few polls only, so that rungs of different brackets complete out of step
+        p["plan"]["slow"] = {str(rng.randint(0, 14)): rng.choice([0.05, 0.1, 0.25]) for _ in range(rng.randint(1, 4))}
+        p["n_workers"] = max(2, p["n_workers"])
     p["nan_frac"] = rng.choice([0.5, 0.7, 0.85]) if kind == "sync_hb" and rng.random() < 0.4 else 0
     p["early"] = None
     if kind.startswith("hb_") and p["delete_checkpoints"] and rng.random() < 0.45:
@@ -159,6 +168,10 @@ def run_case(spec):
     o.count("runs:delete_checkpoints" if p["delete_checkpoints"] else "runs:no_delete")
     if simrun.pause_capable(kind) and not p["use_mra"] and p["plan"].get("burst", 1) > 1:
         o.count("runs:pause_capable_with_several_reports_per_poll")
+    if p["plan"].get("ext_stop"):
+        o.count("runs:pbt_with_jobs_stopped_from_outside")
+    if p["plan"].get("slow"):
+        o.count("runs:synchronous_with_stragglers")
     if kind == "pbt" and (p["plan"].get("short") or p["plan"].get("fail")):
         o.count("runs:pbt_with_jobs_ending_by_themselves")
     events = r.rec.events
